@@ -32,6 +32,23 @@ var snapSeeds = []snapSeed{
 	{"member", 3, []uint64{1, 2}, []uint64{3}, []string{"T:1", "run", "update:1", "run", "update:1", "run"}, []string{"promote:3", "remove:3"}},
 }
 
+// the node clients talk to: the leader the seed script leaves behind
+func seedClients(seed snapSeed) []int {
+	if seed.name == "divergent" {
+		return []int{1}
+	}
+	return []int{0}
+}
+
+func snapSeedIndex(name string) int {
+	for i, s := range snapSeeds {
+		if s.name == name {
+			return i
+		}
+	}
+	panic("unknown snapshot seed " + name)
+}
+
 func scenSnap(seed snapSeed, dev int, eagerFSM bool, orderCost bool, maxSnaps int) *simScenario {
 	name := "snap-" + seed.name
 	if !eagerFSM {
@@ -45,7 +62,7 @@ func scenSnap(seed snapSeed, dev int, eagerFSM bool, orderCost bool, maxSnaps in
 		Opt:    worldOpt{Nodes: seed.nodes, Voters: seed.voters, Nonvoters: seed.nonv, EagerFSM: eagerFSM, EagerLU: true, EagerConnect: true, Pad: 275},
 		Script: seed.script,
 		Menu: simMenu{OrderCost: orderCost, Timeouts: true, MaxTerm: 3, Drops: true, Dups: true, Crashes: true, Snapshots: true, MaxSnaps: maxSnaps,
-			Clients: []string{"update"}, MaxUpdates: 2, ClientNodes: []int{0}, Admin: seed.admin, MaxAdmin: 1},
+			Clients: []string{"update"}, MaxUpdates: 2, ClientNodes: seedClients(seed), Admin: seed.admin, MaxAdmin: 1},
 		MaxDev:  dev,
 		Crashes: 1,
 	}
